@@ -6,6 +6,14 @@ import Paroxy.Proofs.MakeDbDict
 namespace Paroxy.Proc
 open Paroxy Paroxy.DB
 
+instance exceptDecEq {ε α : Type} [DecidableEq ε] [DecidableEq α] : DecidableEq (Except ε α) :=
+  fun a b => match a, b with
+  | .ok x, .ok y => if h : x = y then isTrue (by rw [h]) else isFalse (fun e => by cases e; exact h rfl)
+  | .error x, .error y =>
+    if h : x = y then isTrue (by rw [h]) else isFalse (fun e => by cases e; exact h rfl)
+  | .ok _, .error _ => isFalse (fun e => by cases e)
+  | .error _, .ok _ => isFalse (fun e => by cases e)
+
 /-- At a program boundary: no main table, no sub-table left in the connection. -/
 def SqlInv (s : SqlState) : Prop := s.t = none ∧ s.physical = []
 
@@ -91,7 +99,8 @@ theorem parseStep_spec (E : Engines) {S S' : State} (h : SqlInv S.sql) (h' : Sql
       (parseStep E S p).1.taxo = S.taxo ∧ (parseStep E S p).1.hash = (parseStep E S' p).1.hash ∨
       (parseStep E S p).2 = (parseStep E S' p).2 ∧ SqlInv (parseStep E S p).1.sql ∧
       (parseStep E S p).1.taxo = S.taxo ∧ (∃ e, p.parsed = .invalid e ∨ p.parsed = .empty) := by
-  unfold parseStep
+  unfold parseStep parseStepG
+  simp only [if_true]
   cases hp : p.parsed with
   | invalid e => exact Or.inr ⟨rfl, h, rfl, e, Or.inl rfl⟩
   | empty => exact Or.inr ⟨rfl, h, rfl, [], Or.inr rfl⟩
